@@ -6,14 +6,46 @@ CFG = {
     "proof_targets": ["Props/C18.vo"],
     "harness": [{"bin": "h_sched2", "prefix": "cases_sched2"}],
     "trusted": [
-        "hand-written model coq/Sched/Scheduler.v: Matches::instantiate (swap-remove bookkeeping) tied to src/scheduler.rs by h_sched2 "
-        "(exact residual order at the rule's next filter_matches call, every recorded call); step_rules_with_scheduler over the shared "
-        "Egg model (coq/Egg/Model.v, Egg/Rules.v; tied to the engine by h_egg) with the offered sets tied by h_sched2 "
-        "(Rules.match_body on the dumped tables vs the tuples the engine offered)",
+        "hand-written model coq/Sched/Scheduler.v part A (Matches::instantiate: choose / choose_all / swap-remove loop of "
+        "src/scheduler.rs:114-166; `sort_unstable(); dedup()` modelled as the increasing enumeration of the chosen indices) tied to "
+        "the code by h_sched2: the exact ORDER of the residual tuples the engine offers at the rule's next filter_matches call is "
+        "compared with the model on every recorded call (kernel-evaluated CInst cases)",
+        "hand-written model coq/Sched/Scheduler.v part B (step_rules_with_scheduler over the shared Egg core coq/Egg/Model.v + "
+        "Egg/Rules.v, itself tied to the engine by h_egg): scheduler = arbitrary state machine, residual matches = raw value tuples "
+        "outside the database, one tuple per body match; tied by h_sched2: Rules.match_body on the dumped tables vs the tuples the "
+        "engine offered (kernel-evaluated COff cases: offered subset of matches, not more often than they match, every match "
+        "offered now or earlier modulo the union-find)",
+        "modelling choice of the apply phase: a decided match whose ids are all canonical is executed as Rules.v does (witness "
+        "terms); a match holding a displaced id is executed with the raw ids (this is what produces F7); the engine's semi-naive "
+        "query (each match offered once in total) is modelled by a naive query (offered at every search) -- the link is the "
+        "cumulative 'offered now or earlier' check",
         "translator /verif/translator: gen/UFSeq.v, gen/MergeArms.v, gen/BridgeFns.v are used by Egg/Model.v",
-        "hook H0 (cfg egglog_verif): EGraph::verif_canon_id, read-only canonical id accessor used by the invariant twin",
+        "hook H0 (cfg egglog_verif): EGraph::verif_canon_id, read-only canonical id accessor used by the invariant twin and for "
+        "comparing earlier offers modulo the union-find",
+        "harness reads the head variables of a match through Match::get_value; variables renamed by core-rule canonicalisation "
+        "((= v0 (F v1)) renames v0 to a generated @F<n>) are located by probing names",
     ],
-    "theorem_backed": "",
-    "link_only": "",
-    "assumptions": [],
+    "theorem_backed": "c18_instantiate_perm/_dups/_all: instantiate never panics on in-range choices, inserts exactly the chosen rows, keeps a "
+                      "permutation of the unchosen ones, duplicates/order of choices irrelevant; c18_offered_all: for every scheduler, "
+                      "program and state each rule's filter_matches gets residual ++ (one tuple per match of the body iff a search was "
+                      "requested); c18_offered_not_subsumed: match_body is invariant under deleting all subsumed rows; c18_no_loss: "
+                      "unchosen matches are kept and offered again at the next step whatever happens to the database in between; "
+                      "c18_choose_all_eq_builtin: a choose-everything scheduler step = Rules.iteration (state and error) on a canonical "
+                      "database, keeps no residual; c18_canonical_after_step_refuted (F7 witness, vm_compute) + "
+                      "c18_canonical_after_step_partial (all ids held in side vectors still canonical => step keeps WFs/canonicity, "
+                      "constructor fragment)",
+    "link_only": "on the real engine, 5 policies x generated programs x injected writes: offered-set soundness/completeness/multiplicity vs an "
+                 "independent naive matcher over non-subsumed rows; no loss (held-back matches re-offered, modulo the union-find); heads "
+                 "of chosen matches hold after the step modulo the equalities that hold then; nothing chosen => dump unchanged; choose-all "
+                 "== step_rules on a clone in lockstep; Dump::invariant (H0) after every step incl. failed ones; unknown ruleset / "
+                 "panicking action / failing primitive mid-step leave rulesets and schedulers usable. 'any fair scheduler reaches the "
+                 "same saturated database on confluent programs' is not checked (no theorem, no predicate).",
+    "assumptions": [
+        "value-level execution of a stale match is sequential with a rebuild after each union (as Rules.v); the engine stages writes and "
+        "rebuilds once per run_rules -- only the F7 witness and the partial theorem depend on it, neither on the difference",
+        "the engine may offer fewer tuples than body matches when variables not read by the head are projected away by the planner "
+        "(observed for variable-free heads): the model offers one per body match; set-level agreement is what is checked",
+        "partial theorem covers heads made of expressions and unions over constructor tables (the fragment c04_inv_reachable covers)",
+        "can_stop / RunReport flags and container-sorted variables are not modelled",
+    ],
 }
